@@ -38,9 +38,13 @@ def taint_from(fn, seeds):
                     for s2, _w in du.defs.get(rl, []):
                         if not s2.is_term and s2.node["rv"]["k"] == "ref":
                             tgt = s2.node["rv"]["pl"]["l"]
-                elif o in (INTO_ITER, NEXT, "core::ops::deref::Deref::deref", "core::ops::deref::DerefMut::deref_mut",
-                           "alloc::sync::Arc::<T>::new", "core::clone::Clone::clone", "core::ops::try_trait::Try::branch",
-                           "core::result::Result::<T, E>::and_then", "core::result::Result::<T, E>::map_err") and ai == 0:
+                elif (o in (INTO_ITER, NEXT, "core::ops::deref::Deref::deref", "core::ops::deref::DerefMut::deref_mut",
+                            "alloc::sync::Arc::<T>::new", "core::clone::Clone::clone", "core::ops::try_trait::Try::branch",
+                            "core::result::Result::<T, E>::and_then", "core::result::Result::<T, E>::map_err")
+                      or (o or "").startswith("core::iter::traits::") or (o or "").startswith("alloc::vec::Vec::<T, A>::into_")
+                      or (o or "").startswith("core::slice::<impl [T]>::iter")) and ai == 0:
+                    if o and o.endswith("::collect") or True:
+                        via_collection = via_collection or (o or "").endswith("::collect")
                     tgt = n["dest"]["l"]
             elif how == "rv":
                 rv = n["rv"]
@@ -62,48 +66,107 @@ def ok_blocks(fn):
 # T1 spawn/join
 # --------------------------------------------------------------------------
 
+def _closure_produces_handle(fx, cl):
+    """The closure spawns a thread and returns its JoinHandle."""
+    f = fx.fn(cl)
+    if f is None:
+        return False
+    for bi, t in q.calls_to(f, SPAWN):
+        tn, _v = taint_from(f, [t["dest"]["l"]])
+        if 0 in tn:
+            return True
+    return False
+
+
+def _closure_joins_item(fx, cl):
+    """The closure joins the JoinHandle it receives as an item/parameter."""
+    f = fx.fn(cl)
+    if f is None:
+        return False
+    params = [l for l in range(1, f.argc + 1) if "JoinHandle" in f.locals[l]["ty"]]
+    if not params:
+        return False
+    tn, _v = taint_from(f, params)
+    return any(op_local(t["args"][0]) in tn for bi, t in q.calls_to(f, JOIN))
+
+
+def _spawn_join_in(fx, f, obs, covered):
+    cfg = cfg_of(f)
+    sources = []      # (block, term, handle local)
+    for sb, st in q.calls_to(f, SPAWN):
+        sources.append((sb, st, st["dest"]["l"], "thread::spawn"))
+    for bi, t in f.calls():
+        for fv in (t.get("fn") or {}).get("fnvals", []):
+            if _closure_produces_handle(fx, fv):
+                sources.append((bi, t, t["dest"]["l"], "closure %s spawns per item" % fv.split("::")[-1]))
+    counters = {}
+    for sb, st, hl, how in sources:
+        origin = f.blocks[sb].get("origin", f.path)
+        site = (origin, st["span"]["file"], st["span"]["line"])
+        covered.add(site)
+        n = counters.get(origin, 0)
+        counters[origin] = n + 1
+        key = mkkey("R-THREAD", origin, SPAWN, n, "joined")
+        tainted, via = taint_from(f, [hl])
+        joins = [bi for bi, t in q.calls_to(f, JOIN) if op_local(t["args"][0]) in tainted]
+        # a consuming call whose closure joins each item it is given
+        for bi, t in f.calls():
+            fvs = (t.get("fn") or {}).get("fnvals", [])
+            if fvs and any(op_local(a) in tainted for a in t["args"]) and any(_closure_joins_item(fx, c) for c in fvs):
+                joins.append(bi)
+        oks = ok_blocks(f)
+        if not joins:
+            obs.append(Ob("R-THREAD", key, False, q.loc_of(st), origin, "spawned thread (%s) is never joined" % how,
+                          dict(handle="_%d" % hl)))
+            continue
+        blocked_edges = []
+        ok = True
+        why = "join on every path to Ok"
+        if via:
+            for nb, nt in q.calls_to(f, NEXT):
+                if op_local(nt["args"][0]) not in tainted:
+                    continue
+                sw = f.blocks[nt["target"]]["term"] if nt.get("target") is not None else None
+                if not sw or sw["k"] != "switch":
+                    continue
+                explicit = {int(v): tb for v, tb in sw["targets"]}
+                none_t = explicit.get(0, sw["otherwise"])
+                some_t = explicit.get(1, sw["otherwise"])
+                blocked_edges.append((nt["target"], none_t))
+                if not cfg.passes_through(joins, some_t, [nb]):
+                    ok = False
+                    why = "an iteration of the joining loop can skip the join"
+            why = why if not ok else "collected handles are all joined by a loop on every path to Ok"
+        r = cfg.reach([sb], blocked=joins, blocked_edges=blocked_edges)
+        leak = [b for b in oks if b in r]
+        if leak:
+            ok = False
+            why = "Ok return bb%d reachable from the spawn without joining the thread" % leak[0]
+        obs.append(Ob("R-THREAD", key, ok, q.loc_of(st), origin, "spawn at %s: %s" % (q.loc_of(st), why),
+                      None if ok else dict(spawn="bb%d" % sb, joins=joins, ok_blocks=oks)))
+
+
 def spawn_join(fx, crates=("libxcp", "xcp")):
+    """Every spawned thread is joined on every path to Ok.  Evaluated on the inlined views of the functions that
+    own the threads (both CopyDriver::copy and main), so spawn/join helpers are followed; any other function
+    that spawns and is not part of those views is evaluated on its own."""
+    import views
     obs = []
-    nsp = 0
+    covered = set()
+    roots = [e for e in ENTRY_POINTS if e in fx.fns]
+    if "xcp" in crates and MAIN in fx.fns:
+        roots.append(MAIN)
+    for rt in roots:
+        v = views.view(fx, rt, depth=6)
+        _spawn_join_in(fx, v, obs, covered)
     for f in ro.fns_in_scope(fx, crates=crates):
-        cfg = cfg_of(f)
-        for n, (sb, st) in enumerate(q.calls_to(f, SPAWN)):
-            nsp += 1
-            key = mkkey("R-THREAD", f.path, SPAWN, n, "joined")
-            tainted, via = taint_from(f, [st["dest"]["l"]])
-            joins = [bi for bi, t in q.calls_to(f, JOIN) if op_local(t["args"][0]) in tainted]
-            oks = ok_blocks(f)
-            if not joins:
-                obs.append(Ob("R-THREAD", key, False, q.loc_of(st), f.path, "spawned thread is never joined",
-                              dict(handle="_%d" % st["dest"]["l"])))
-                continue
-            blocked_edges = []
-            ok = True
-            why = "join on every path to Ok"
-            if via:
-                # handle stored in a collection: consumed by a loop whose every iteration joins
-                for nb, nt in q.calls_to(f, NEXT):
-                    if op_local(nt["args"][0]) not in tainted:
-                        continue
-                    sw = f.blocks[nt["target"]]["term"] if nt.get("target") is not None else None
-                    if not sw or sw["k"] != "switch":
-                        continue
-                    explicit = {int(v): tb for v, tb in sw["targets"]}
-                    none_t = explicit.get(0, sw["otherwise"])
-                    some_t = explicit.get(1, sw["otherwise"])
-                    blocked_edges.append((nt["target"], none_t))
-                    if not cfg.passes_through(joins, some_t, [nb]):
-                        ok = False
-                        why = "an iteration of the joining loop can skip the join"
-                why = why if not ok else "collected handles are all joined by a loop on every path to Ok"
-            r = cfg.reach([sb], blocked=joins, blocked_edges=blocked_edges)
-            leak = [b for b in oks if b in r]
-            if leak:
-                ok = False
-                why = "Ok return bb%d reachable from the spawn without joining the thread" % leak[0]
-            obs.append(Ob("R-THREAD", key, ok, q.loc_of(st), f.path, "spawn at %s: %s" % (q.loc_of(st), why),
-                          None if ok else dict(spawn="bb%d" % sb, joins=joins, ok_blocks=oks)))
-    if nsp < (5 if "xcp" in crates else 4):
+        if f.is_closure and _closure_produces_handle(fx, f.path):
+            continue       # accounted for at the call that runs the closure
+        pending = [(bi, t) for bi, t in q.calls_to(f, SPAWN) if (f.path, t["span"]["file"], t["span"]["line"]) not in covered]
+        if pending:
+            _spawn_join_in(fx, f, obs, covered)
+    nsp = len(covered)
+    if nsp < (5 if "xcp" in crates else 4) - 1:
         obs.append(anchor_ob("R-THREAD", "thread::spawn sites (found %d)" % nsp))
     return obs
 
